@@ -175,6 +175,22 @@ pub fn load_findings(root: &Path, property: &str) -> Vec<Finding> {
     out
 }
 
+static KNOWN_KEYS: std::sync::OnceLock<Vec<String>> = std::sync::OnceLock::new();
+static KNOWN_INPLACE: Mutex<BTreeMap<String, u64>> = Mutex::new(BTreeMap::new());
+
+/// For oracles that can keep checking a case after meeting a recorded finding: returns true (and
+/// counts the hit) if `key` is listed as a known finding of the running property, so the oracle
+/// may skip that one shape and continue. Always false in `--strict` replays.
+pub fn tolerate_known(key: &str) -> bool {
+    if let Some(keys) = KNOWN_KEYS.get() {
+        if let Some(k) = keys.iter().find(|k| key.starts_with(k.as_str())) {
+            *KNOWN_INPLACE.lock().unwrap().entry(k.clone()).or_insert(0) += 1;
+            return true;
+        }
+    }
+    false
+}
+
 fn known_match<'a>(findings: &'a [Finding], key: &str) -> Option<&'a Finding> {
     findings.iter().find(|f| f.status == "known" && !f.key.is_empty() && key.starts_with(&f.key))
 }
@@ -290,6 +306,9 @@ pub fn run_check<C: Check>(check: C, args: &Args) -> i32 {
     let root = verif_root();
     let id = check.id();
     let findings = load_findings(&root, id);
+    if !args.strict {
+        let _ = KNOWN_KEYS.set(findings.iter().filter(|f| f.status == "known" && !f.key.is_empty()).map(|f| f.key.clone()).collect());
+    }
 
     // ---- replay mode -------------------------------------------------------------------------
     if let Some(path) = &args.replay {
@@ -656,6 +675,9 @@ pub fn run_check<C: Check>(check: C, args: &Args) -> i32 {
     let mut known_hits = shared.known_hits.lock().unwrap().clone();
     for (k, n) in known_hits_regress {
         *known_hits.entry(k).or_insert(0) += n;
+    }
+    for (k, n) in KNOWN_INPLACE.lock().unwrap().iter() {
+        *known_hits.entry(k.clone()).or_insert(0) += *n;
     }
     for f in findings.iter().filter(|f| f.status == "known") {
         let hits = known_hits.get(&f.key).copied().unwrap_or(0);
